@@ -13,6 +13,11 @@ three read-back lists and the error kind are compared with
 
 `utils.is_url` is a parameter of the model: the real function is evaluated on every string of the
 case (and its space→plus image) and passed to the driver as a table.
+
+Held-object histories (`op: get`): a list object is obtained once (`ws = t.webseeds`, `tr = t.trackers`,
+`tier = tr[i]`) and edited several times, also after operations that raised.  After every operation
+`held_reasons` states the property for the held objects on the real code (metainfo mirrors the held
+object, read-back equals it); `plan_op` gives the equivalent fresh-getter history for the driver.
 """
 import itertools
 import json
@@ -20,7 +25,8 @@ import os
 
 from harness import common
 
-RULE = ('histories = start state + operations on trackers / a tier / webseeds / httpseeds '
+RULE = ('histories = start state + operations on trackers / a tier / webseeds / httpseeds, each through a fresh getter '
+        'call or on a list object obtained once and held (get) '
         '(set, append, insert, extend, +=, delete, slice delete, clear, remove, pop, replace, index '
         'and slice assignment) over the URL alphabet {a, b, c, "http://a b", "http://a+b", invalid, '
         'blank, leading-space}: exhaustive short histories + random histories up to 8 operations '
@@ -91,58 +97,156 @@ def _apply_u(lst, op):
         raise RuntimeError(f'harness: unknown op {n}')
 
 
-def apply_op(t, op):
+def _apply_t(tr, op):
+    """operation on a Trackers object (fresh from the getter or held)"""
+    n = op['op']
+    if n == 'insert':
+        tr.insert(op['i'], op['v'])
+    elif n == 'append':
+        tr.append(op['v'])
+    elif n == 'extend':
+        tr.extend(list(op['vs']))
+    elif n == 'delete':
+        del tr[op['i']]
+    elif n == 'delslice':
+        del tr[op['a']:op['b']]
+    elif n == 'clear':
+        tr.clear()
+    elif n == 'remove':
+        tr.remove(list(op['us']))
+    elif n == 'pop':
+        tr.pop() if op['i'] is None else tr.pop(op['i'])
+    elif n == 'replace':
+        tr.replace(list(op['vs']))
+    elif n == 'setitem':
+        tr[op['i']] = op['v']
+    elif n == 'setslice':
+        tr[op['a']:op['b']] = list(op['vs'])
+    else:
+        raise RuntimeError(f'harness: unknown op {n}')
+
+
+def new_held():
+    return {'ws': None, 'hs': None, 'tr': None, 'tiers': {}}
+
+
+def _attached(H, k):
+    """the tier handle k is bound and its object is still an element of the held Trackers object"""
+    tier, tr = H['tiers'].get(k), H['tr']
+    if tier is None or tr is None:
+        return None
+    for i, x in enumerate(tr):
+        if x is tier:
+            return i
+    return None
+
+
+def plan_op(H, op):
+    """(via, model operation): how the operation is routed — 'get' (a list object is obtained and
+    held), 'get-tier' (a tier of the held Trackers object is held), 'held' (applied to the held
+    object of that list), 'skip' (a tier handle that is unbound or no longer part of the held
+    Trackers object: nothing is done), 'fresh' (through a fresh getter call, as in the plain
+    histories) — and the operation of the fresh-getter state machine it is equivalent to while the
+    held object's change callback is alive (None = the identity)."""
     on, n = op['on'], op['op']
-    if on == 'ws':
-        if n == 'set':
-            t.webseeds = _pyval(op['v'])
-        elif n == 'iadd':
-            t.webseeds += list(op['us'])
+    if n == 'get':
+        return ('get-tier' if on == 'tier' and H['tr'] is not None else 'get'), None
+    if on == 'tier' and 'k' in op:
+        i = _attached(H, op['k'])
+        if i is None:
+            return 'skip', None
+        m = {x: y for x, y in op.items() if x != 'k'}
+        m['ti'] = i
+        if n == 'iadd':          # `tier += us` on a local name: extend, no Trackers.__setitem__
+            m['op'] = 'extend'
+        return 'held', m
+    g = 'tr' if on == 'tier' else on
+    if n == 'set' or H[g] is None:
+        return 'fresh', op
+    if n == 'iadd' and on != 'tier':     # `held += us`: MutableSequence.__iadd__ = extend, no property setter
+        m = dict(op)
+        m['op'] = 'extend'
+        return 'held', m
+    return 'held', op
+
+
+def apply_op(t, op, H=None):
+    """Apply one operation; `H` = the held list objects of this history (new_held())."""
+    if H is None:
+        H = new_held()
+    on, n = op['on'], op['op']
+    if n == 'get':
+        if on == 'ws':
+            H['ws'] = t.webseeds
+        elif on == 'hs':
+            H['hs'] = t.httpseeds
+        elif on == 'tr':
+            H['tr'], H['tiers'] = t.trackers, {}
+        elif on == 'tier':
+            if H['tr'] is None:
+                H['tr'], H['tiers'] = t.trackers, {}
+            H['tiers'].pop(op['k'], None)
+            H['tiers'][op['k']] = H['tr'][op['ti']]
         else:
-            _apply_u(t.webseeds, op)
-    elif on == 'hs':
+            raise RuntimeError(f'harness: unknown target {on}')
+    elif on in ('ws', 'hs'):
+        attr = 'webseeds' if on == 'ws' else 'httpseeds'
         if n == 'set':
-            t.httpseeds = _pyval(op['v'])
+            setattr(t, attr, _pyval(op['v']))
+            H[on] = None                       # assignment succeeded: a held object is stale now
+        elif H[on] is not None:
+            h = H[on]
+            if n == 'iadd':
+                h += list(op['us'])
+            else:
+                _apply_u(h, op)
         elif n == 'iadd':
-            t.httpseeds += list(op['us'])
+            if on == 'ws':
+                t.webseeds += list(op['us'])
+            else:
+                t.httpseeds += list(op['us'])
         else:
-            _apply_u(t.httpseeds, op)
+            _apply_u(getattr(t, attr), op)
     elif on == 'tier':
-        if n == 'iadd':
-            t.trackers[op['ti']] += list(op['us'])
+        if 'k' in op:
+            tier = H['tiers'][op['k']]
+            if n == 'iadd':
+                tier += list(op['us'])
+            else:
+                _apply_u(tier, op)
         else:
-            _apply_u(t.trackers[op['ti']], op)
+            tr = H['tr'] if H['tr'] is not None else t.trackers
+            if n == 'iadd':
+                tr[op['ti']] += list(op['us'])
+            else:
+                _apply_u(tr[op['ti']], op)
     elif on == 'tr':
         if n == 'set':
             t.trackers = _pyval(op['v'])
+            H['tr'], H['tiers'] = None, {}
+        elif H['tr'] is not None:
+            h = H['tr']
+            if n == 'iadd':
+                h += list(op['vs'])
+            else:
+                _apply_t(h, op)
         elif n == 'iadd':
             t.trackers += list(op['vs'])
-        elif n == 'insert':
-            t.trackers.insert(op['i'], op['v'])
-        elif n == 'append':
-            t.trackers.append(op['v'])
-        elif n == 'extend':
-            t.trackers.extend(list(op['vs']))
-        elif n == 'delete':
-            del t.trackers[op['i']]
-        elif n == 'delslice':
-            del t.trackers[op['a']:op['b']]
-        elif n == 'clear':
-            t.trackers.clear()
-        elif n == 'remove':
-            t.trackers.remove(list(op['us']))
-        elif n == 'pop':
-            t.trackers.pop() if op['i'] is None else t.trackers.pop(op['i'])
-        elif n == 'replace':
-            t.trackers.replace(list(op['vs']))
-        elif n == 'setitem':
-            t.trackers[op['i']] = op['v']
-        elif n == 'setslice':
-            t.trackers[op['a']:op['b']] = list(op['vs'])
         else:
-            raise RuntimeError(f'harness: unknown op {n}')
+            _apply_t(t.trackers, op)
     else:
         raise RuntimeError(f'harness: unknown target {on}')
+
+
+def observe_held(H):
+    """content of the held list objects (None entries = no object held for that list)"""
+    out = {}
+    for on in ('ws', 'hs'):
+        if H[on] is not None:
+            out[on] = [_cs(u) for u in H[on]]
+    if H['tr'] is not None:
+        out['tr'] = [[_cs(u) for u in tier] for tier in H['tr']]
+    return out
 
 
 def _cs(x):
@@ -203,10 +307,13 @@ def run_history(torf, case):
             if init.get(k) is not None:
                 t.metainfo[k] = json.loads(json.dumps(init[k]))
     steps = []
+    H = new_held()
     for op in case['ops']:
+        via, mop = plan_op(H, op)
         try:
-            apply_op(t, op)
-            out = 'ok'
+            if via != 'skip':
+                apply_op(t, op, H)
+            out = 'skip' if via == 'skip' else 'ok'
         except torf.URLError:
             out = 'url'
         except IndexError:
@@ -218,7 +325,11 @@ def run_history(torf, case):
         except Exception as e:  # noqa
             out = f'internal:{type(e).__name__}'
         mi, rb, exc = observe(t)
-        steps.append({'mi': mi, 'rb': rb, 'out': out, 'rbexc': exc})
+        try:
+            held = observe_held(H)
+        except Exception as e:  # noqa  (a held object that cannot even be iterated)
+            held = {'error': type(e).__name__}
+        steps.append({'mi': mi, 'rb': rb, 'out': out, 'rbexc': exc, 'held': held, 'via': via, 'mop': mop})
     table = [[s, bool(_utils.is_url(s))] for s in strings_of(case)]
     return steps, table
 
@@ -269,6 +380,35 @@ def py_holds(mi, rb, is_url):
         why.append('ws:invalid-url-stored')
     if not all(is_url.get(u, False) for u in hs):
         why.append('hs:invalid-url-stored')
+    return why
+
+
+def held_reasons(mi, rb, held):
+    """The same sentence for list objects that the caller still holds: the metainfo fields mirror
+    the CONTENT OF THE HELD OBJECT, and reading the list back from the torrent gives that content.
+    All reasons start with 'held:<list>:'."""
+    why = []
+    if 'error' in held:
+        return ['held:?:held-object-cannot-be-read-' + str(held['error'])]
+    for on, fld in (('ws', 'url-list'), ('hs', 'httpseeds')):
+        if on in held:
+            h = held[on]
+            if mi[fld] != (h or None):
+                why.append(f'held:{on}:field-does-not-mirror-held-object')
+            if rb is not None and rb[on] != h:
+                why.append(f'held:{on}:readback-differs-from-held-object')
+    if 'tr' in held:
+        tiers = held['tr']
+        flat = [u for tier in tiers for u in tier]
+        first = tiers[0][0] if tiers and tiers[0] else None
+        if mi['announce'] != first:
+            why.append('held:tr:announce-is-not-first-url-of-held-object')
+        if mi['announce-list'] != (tiers if len(flat) > 1 else None):
+            why.append('held:tr:announce-list-is-not-tiers-of-held-object')
+        if any(len(tier) == 0 for tier in tiers):
+            why.append('held:tr:empty-tier-in-held-object')
+        if rb is not None and rb['tr'] != tiers:
+            why.append('held:tr:readback-differs-from-held-object')
     return why
 
 
@@ -324,8 +464,14 @@ def _group(op):
     return 'tr' if op['on'] in ('tr', 'tier') else op['on']
 
 
+def _own_reasons(observed, group):
+    """reasons without those about the held object of the same list (they accompany a deviation of
+    that list; a held-object reason about ANOTHER list is kept and makes every matcher below fail)"""
+    return [r for r in observed.get('reasons', []) if not r.startswith(f'held:{group}:')]
+
+
 def _reasons_in_group(observed, group):
-    rs = observed.get('reasons', [])
+    rs = _own_reasons(observed, group)
     return bool(rs) and all(r == 'readback-failed' or r.startswith(group + ':') for r in rs)
 
 
@@ -360,14 +506,49 @@ def match_d16c(case, observed, finding):
         return False
     tbl = observed.get('is_url', {})
     bad = [u for u in stored_urls(op) if tbl.get(u) and not tbl.get(u.replace(' ', '+'))]
-    rs = observed.get('reasons', [])
     g = _group(op)
+    rs = _own_reasons(observed, g)
     return bool(bad) and bool(rs) and all(r in ('readback-failed', g + ':invalid-url-stored') for r in rs)
+
+
+def match_d16d(case, observed, finding):
+    """the deviation concerns ONLY a held list object (metainfo and fresh read-back agree with each
+    other), and that very object — obtained by the last `get` of its list and not replaced by an
+    assignment since — has had a `replace()` that raised URLError: on the tiers container any
+    replace() with an invalid URL, on a URL list (webseeds / httpseeds / a tier) a replace() whose
+    argument contains a string that is_url() accepts while its space→plus image is not a URL (the
+    second coercion inside `_callback_disabled()` raises).  A failing extend/append/insert or a
+    replace() that succeeded never matches."""
+    k = observed.get('step')
+    trail = observed.get('trail')
+    rs = observed.get('reasons', [])
+    if k is None or observed.get('kind') != 'state' or not trail or not rs:
+        return False
+    if any(not r.startswith('held:') for r in rs):
+        return False
+    groups = {r.split(':')[1] for r in rs}
+    if len(groups) != 1:
+        return False
+    g = groups.pop()
+    tbl = observed.get('is_url', {})
+    for j in range(k, -1, -1):
+        op, (via, out) = case['ops'][j], trail[j]
+        if _group(op) != g:
+            continue
+        if via == 'get' or (op['op'] == 'set' and out == 'ok'):
+            return False                      # another object since then
+        if via == 'held' and op['op'] == 'replace' and out == 'url':
+            if op['on'] == 'tr':
+                return True
+            if any(tbl.get(u) and not tbl.get(u.replace(' ', '+')) for u in op['us'] if isinstance(u, str)):
+                return True
+    return False
 
 
 MATCHERS = {'c16_setitem_on_url_list': match_d16a,
             'c16_slice_assignment_on_tiers': match_d16b,
-            'c16_coerced_url_not_revalidated': match_d16c}
+            'c16_coerced_url_not_revalidated': match_d16c,
+            'c16_failed_replace_on_held_object': match_d16d}
 
 
 # ----------------------------------------------------------------------------------------------
@@ -537,6 +718,139 @@ def rnd_op(rng, allow_set=True):
     return _u('tr', n)
 
 
+# ---- held-object histories: a list object is obtained once and edited several times ----------
+
+def _get(on, **kw):
+    return dict(on=on, op='get', **kw)
+
+
+def held_ops_urls(on, **kw):
+    """operations applied to ONE held URL list (webseeds / httpseeds / a held tier): successful ones,
+    ones that raise URLError (at the start, in the middle and at the end of a batch), ValueError,
+    IndexError"""
+    o = lambda n, **a: _u(on, n, **kw, **a)   # noqa
+    return [o('append', u=A), o('append', u=B), o('append', u=C), o('append', u=BAD), o('append', u=SP),
+            o('insert', i=0, u=C), o('insert', i=0, u=BAD2),
+            o('extend', us=[B, C]), o('extend', us=[C, BAD]), o('extend', us=[BAD, C]), o('extend', us=[B, BAD, C]),
+            o('iadd', us=[C]), o('iadd', us=[C, BAD]), o('iadd', us=[BAD]),
+            o('replace', us=[B, C]), o('replace', us=[C, BAD]), o('replace', us=[]),
+            o('remove', u=A), o('remove', u=C), o('pop', i=None), o('pop', i=7), o('delete', i=0), o('delete', i=5),
+            o('delslice', a=0, b=1), o('clear'),
+            o('setitem', i=0, u=C), o('setitem', i=0, u=BAD), o('setslice', a=0, b=0, us=[C, BAD])]
+
+
+def held_ops_tiers():
+    """operations applied to ONE held Trackers object, and to its tiers through it"""
+    o = lambda n, **a: _u('tr', n, **a)   # noqa
+    ops = [o('append', v=C), o('append', v=[B, C]), o('append', v=[BAD]), o('append', v=[C, BAD]), o('append', v=''),
+           o('insert', i=0, v=[C]), o('insert', i=0, v=BAD),
+           o('extend', vs=[[C], [SP]]), o('extend', vs=[[C], [BAD]]), o('extend', vs=[[BAD], [C]]),
+           o('iadd', vs=[[C]]), o('iadd', vs=[[C], [BAD], [B]]),
+           o('replace', vs=[[B], [C]]), o('replace', vs=[]), o('replace', vs=[[C], [BAD]]),
+           o('remove', us=[A]), o('remove', us=[C]), o('pop', i=None), o('pop', i=7), o('delete', i=0), o('delete', i=5),
+           o('delslice', a=0, b=1), o('clear'), o('setitem', i=0, v=[C]), o('setitem', i=0, v=[BAD])]
+    for ti in (0, 1):
+        ops += [_u('tier', 'append', ti=ti, u=C), _u('tier', 'extend', ti=ti, us=[C, BAD]),
+                _u('tier', 'iadd', ti=ti, us=[C, BAD]), _u('tier', 'iadd', ti=ti, us=[C]),
+                _u('tier', 'clear', ti=ti), _u('tier', 'pop', ti=ti, i=None), _u('tier', 'remove', ti=ti, u=B)]
+    return ops
+
+
+def gen_held_exhaustive(ctx):
+    cases = []
+    def add(start, ops):
+        cases.append({'start': start, 'ops': ops, 'kind': 'held-exh'})
+    # one held URL list, two operations (the second one sees whatever the first left behind)
+    for on in ('ws', 'hs'):
+        alpha = held_ops_urls(on)
+        for start, pre in (('empty', []), ('empty', [_u(on, 'set', v=[A])]), ('full', [])):
+            if on == 'hs' and start == 'full' and not ctx.thorough:
+                continue
+            for a, b in itertools.product(alpha, repeat=2):
+                add(start, pre + [_get(on)] + [a, b])
+    # one held Trackers object
+    alpha = held_ops_tiers()
+    for start in ('empty', 'full'):
+        for a, b in itertools.product(alpha, repeat=2):
+            add(start, [_get('tr')] + [a, b])
+    # one held tier (its Trackers object stays alive behind it), then the tier through the handle
+    alpha = held_ops_urls('tier', k=0)
+    tr_side = [_u('tr', 'append', v=[C]), _u('tr', 'delete', i=0), _u('tr', 'clear'), _u('tier', 'append', ti=0, u=C),
+               _u('tr', 'setitem', i=0, v=[C])]
+    for start, ti in (('full', 0), ('full', 1), ('single', 0)):
+        for a, b in itertools.product(alpha, repeat=2):
+            add(start, [_get('tier', ti=ti, k=0), a, b])
+        for a, x, b in itertools.product(alpha[::3], tr_side, alpha[::2]):
+            add(start, [_get('tier', ti=ti, k=0), a, x, b])
+    # a failed batch operation, then three more operations on the same object (thorough: longer tails)
+    fails = {'ws': [_u('ws', 'extend', us=[B, BAD, C]), _u('ws', 'iadd', us=[BAD]), _u('ws', 'replace', us=[C, BAD]),
+                    _u('ws', 'setslice', a=0, b=0, us=[C, BAD]), _u('ws', 'remove', u=C), _u('ws', 'pop', i=7)],
+             'tr': [_u('tr', 'extend', vs=[[C], [BAD]]), _u('tr', 'iadd', vs=[[BAD]]), _u('tr', 'append', v=[C, BAD]),
+                    _u('tier', 'extend', ti=0, us=[C, BAD]), _u('tier', 'iadd', ti=-1, us=[BAD]), _u('tr', 'pop', i=7)]}
+    tails = {'ws': [_u('ws', 'append', u=C), _u('ws', 'insert', i=0, u=SP), _u('ws', 'remove', u=A), _u('ws', 'clear'),
+                    _u('ws', 'extend', us=[B, C]), _u('ws', 'delete', i=0)],
+             'tr': [_u('tr', 'append', v=[C]), _u('tier', 'append', ti=0, u=SP), _u('tier', 'clear', ti=0), _u('tr', 'clear'),
+                    _u('tr', 'delete', i=-1), _u('tier', 'remove', ti=0, u=A)]}
+    for g in ('ws', 'tr'):
+        for f in fails[g]:
+            for tail in itertools.product(tails[g], repeat=3 if ctx.thorough else 2):
+                add('full', [_get(g), f] + list(tail))
+    return cases
+
+
+def rnd_held_history(rng, allow_set):
+    """random history in which every list is edited through at most one object at a time: after a
+    `get` all operations on that list go to the held object until the list is assigned or obtained
+    again; tiers are edited through the held Trackers object or through held tier handles"""
+    n = rng.randint(3, 10)
+    ops = []
+    tier_keys = []
+    # most histories obtain their objects early
+    for on in rng.sample(['ws', 'hs', 'tr', 'tier'], rng.randint(1, 3)):
+        if rng.random() < 0.4 and on != 'tier':
+            ops.append(_u(on, 'set', v=rnd_urls(rng, 1, 3)) if on != 'tr' else
+                       _u('tr', 'set', v=[rnd_tierval(rng) for _ in range(rng.randint(1, 3))]))
+        if on == 'tier':
+            k = len(tier_keys)
+            tier_keys.append(k)
+            ops.append(_get('tier', ti=rng.choice([0, 0, 1, -1]), k=k))
+        else:
+            ops.append(_get(on))
+    while len(ops) < n:
+        r = rng.random()
+        if r < 0.06:
+            on = rng.choice(['ws', 'hs', 'tr'])
+            ops.append(_get(on))
+            if on == 'tr':
+                tier_keys = []
+        elif r < 0.12:
+            k = len(tier_keys)
+            tier_keys.append(k)
+            ops.append(_get('tier', ti=rng.choice([0, 0, 1, -1, 2]), k=k))
+        elif r < 0.35 and tier_keys:
+            ops.append(rnd_uop(rng, 'tier', allow_set, k=rng.choice(tier_keys)))
+        else:
+            op = rnd_op(rng, allow_set)
+            if op['on'] == 'tr' and op['op'] == 'set' and rng.random() < 0.7:
+                continue                  # assignments end the life of a held object: keep them rare
+            ops.append(op)
+    return ops
+
+
+def gen_held_cases(ctx, scale=1.0):
+    rng = ctx.rng
+    cases = gen_held_exhaustive(ctx)
+    for _ in range(int(ctx.n(2500, 120000) * scale)):
+        cases.append({'start': rng.choice(['empty', 'full', 'full', 'single']),
+                      'ops': rnd_held_history(rng, allow_set=False), 'kind': 'held-rnd-clean'})
+    for _ in range(int(ctx.n(800, 40000) * scale)):
+        cases.append({'start': rng.choice(['empty', 'full', 'full', 'single']),
+                      'ops': rnd_held_history(rng, allow_set=True), 'kind': 'held-rnd-all'})
+    for c in cases:
+        c['init'] = START_STATES[c['start']]
+    return cases
+
+
 def gen_cases(ctx, scale=1.0):
     rng = ctx.rng
     cases = []
@@ -585,7 +899,7 @@ def gen_cases(ctx, scale=1.0):
                       'ops': [rnd_op(rng, allow_set=False) for _ in range(k)], 'kind': 'rnd-legacy'})
     for c in cases:
         c['init'] = START_STATES[c['start']]
-    return cases
+    return cases + gen_held_cases(ctx, scale)
 
 
 # ----------------------------------------------------------------------------------------------
@@ -620,8 +934,10 @@ def evaluate(ctx, drv, cases, witness_of=None):
     for c, (steps, table, err) in zip(cases, impl):
         if err:
             raise RuntimeError(f'harness failure on {c}: {err}')
-        reqs.append({'op': 'c16.run', 'urls': table, 'init': c.get('init'), 'ops': c['ops'],
-                     'obs': [{'mi': s['mi'], 'rb': s['rb']} for s in steps]})
+        # the driver sees the equivalent fresh-getter history (plain histories: the history itself)
+        msteps = [s for s in steps if s['mop'] is not None]
+        reqs.append({'op': 'c16.run', 'urls': table, 'init': c.get('init'), 'ops': [s['mop'] for s in msteps],
+                     'obs': [{'mi': s['mi'], 'rb': s['rb']} for s in msteps]})
     from multiprocessing.pool import ThreadPool
     parts = common.split(reqs, max(1, min(common.NPROC, len(reqs) // 500 + 1)))
     with ThreadPool(len(parts) or 1) as tp:       # one driver process per part
@@ -659,40 +975,68 @@ def _classify(ctx, c, steps, is_url, r):
     verdict = None
     key = str(c.get('start'))
     nchanges, prev_mi = 0, before_mi
-    for k, (s, m) in enumerate(zip(steps, r['steps'])):
+    msteps = iter(r['steps'])
+    trail = []
+    for k, s in enumerate(steps):
         op = c['ops'][k]
-        hyp = m['hyp']
+        mop = s['mop']
+        m = next(msteps) if mop is not None else None
+        hyp = bool(m and m['hyp'])
+        via = s['via']
+        trail.append([via, s['out']])
         key += '|' + _opstr(op)
         if s['mi'] != prev_mi:
             nchanges += 1
         prev_mi = s['mi']
-        ctx.case(key=key, nontrivial=nchanges >= 2, kind=f'{kind}/{op["on"]}.{op["op"]}')
+        heldkind = ('held/' if via != 'fresh' or s['held'] else '')
+        ctx.case(key=key, nontrivial=nchanges >= 2, kind=f'{kind}/{heldkind}{op["on"]}.{op["op"]}')
         if hyp:
             ctx.dist['under-hypothesis'] += 1
+        if s['held']:
+            ctx.dist['held-object-checked'] += 1
         # --- I ∈ S ? -----------------------------------------------------------------------
         reasons = py_holds(s['mi'], s['rb'], is_url)
-        lean_ok = m['specI']
-        if (not reasons) != bool(lean_ok):
-            ctx.machinery_error('Lean Spec.holds and the Python statement of C16 disagree on observed data',
-                                {'case': case, 'step': k, 'reasons': reasons, 'lean': lean_ok, 'obs': s})
-            return None
+        if m is not None:
+            lean_ok = m['specI']
+            if (not reasons) != bool(lean_ok):
+                ctx.machinery_error('Lean Spec.holds and the Python statement of C16 disagree on observed data',
+                                    {'case': case, 'step': k, 'reasons': reasons, 'lean': lean_ok, 'obs': s})
+                return None
+        hreasons = held_reasons(s['mi'], s['rb'], s['held'])
         obs = {'step': k, 'op': op, 'mi': s['mi'], 'rb': s['rb'], 'out': s['out'], 'rbexc': s['rbexc']}
+        if s['held'] or via != 'fresh':
+            obs.update(held=s['held'], via=via, trail=list(trail))
         if not legacy or not reasons:
             legacy = False if not reasons else legacy
-        if reasons and not legacy:
-            obs.update(kind='state', reasons=reasons, is_url={u: is_url.get(u) for u in is_url})
+        if (reasons and not legacy) or hreasons:
+            allr = (reasons if not legacy else []) + hreasons
+            obs.update(kind='state', reasons=allr, is_url={u: is_url.get(u) for u in is_url})
+            exp = {'model_mi': m['mi'], 'model_rb': m['rb'], 'model_out': m['out'], 'hyp': hyp} if m else \
+                  {'metainfo': 'unchanged by obtaining a list object', 'before': before_mi}
+            if hreasons:
+                exp['held'] = 'the metainfo fields mirror the held list object and reading the list back gives its content'
             verdict = ctx.violation(
-                f'after operation {k} ({op["on"]}.{op["op"]}) metainfo and lists are out of sync: {", ".join(reasons)}',
-                case, {'model_mi': m['mi'], 'model_rb': m['rb'], 'model_out': m['out'], 'hyp': hyp}, obs,
-                finding_matchers=MATCHERS) or 'violation'
+                f'after operation {k} ({op["on"]}.{op["op"]}{" on a held list object" if via == "held" else ""}) '
+                f'metainfo and lists are out of sync: {", ".join(allr)}',
+                case, exp, obs, finding_matchers=MATCHERS) or 'violation'
             return verdict
         if s['out'].startswith('internal:'):
             obs.update(kind='outcome')
             ctx.violation(f'operation {k} ({op["on"]}.{op["op"]}) raised an undocumented {s["out"][9:]}',
-                          case, {'model_out': m['out']}, obs, finding_matchers=MATCHERS)
+                          case, {'model_out': m['out'] if m else None}, obs, finding_matchers=MATCHERS)
             return 'violation'
-        if not legacy and reject_expected(op, before_rb, is_url):
-            atomic = op['op'] not in ('extend', 'iadd')
+        if m is None:
+            # obtaining a list object / a skipped stale tier handle: nothing may change
+            want_out = ('skip',) if via == 'skip' else ('ok', 'index') if op['on'] == 'tier' else ('ok',)
+            if s['mi'] != before_mi or (k > 0 and s['rb'] != steps[k - 1]['rb']) or s['out'] not in want_out:
+                obs.update(kind='get', before=before_mi)
+                ctx.violation(f'operation {k} (obtaining torrent.{op["on"]}) changed the metainfo or failed: outcome {s["out"]}',
+                              case, {'mi': before_mi, 'rb': steps[k - 1]['rb'] if k else None, 'out': want_out}, obs,
+                              finding_matchers=MATCHERS)
+                return 'violation'
+            continue
+        if not legacy and reject_expected(mop, before_rb, is_url):
+            atomic = mop['op'] not in ('extend', 'iadd')
             if s['out'] != 'url' or (atomic and s['mi'] != before_mi):
                 obs.update(kind='reject', before=before_mi)
                 ctx.violation(f'operation {k} ({op["on"]}.{op["op"]}) with an invalid URL: outcome {s["out"]}'
@@ -756,8 +1100,12 @@ def run(ctx, drv):
         'utils.is_url (urllib.parse) is a parameter isUrl of the model; the real function is evaluated on every '
         'string of a case and on its space→plus image; theorems assume isUrl u → isUrl (spaceToPlus u) '
         '(the driver evaluates this per case as part of `hyp`; it is false for strings with leading white space, D16c)',
-        'every operation goes through a fresh getter call (torrent.trackers.append(x)); list objects that are held '
-        'across other operations are not modelled',
+        'plain histories: every operation goes through a fresh getter call (torrent.trackers.append(x)). Held-object '
+        'histories: per list at most ONE object is edited at a time (ws = t.webseeds / hs / tr = t.trackers / tier = tr[i], '
+        'several operations on it, also after operations that raised; stale tier handles are skipped); they are checked '
+        'implementation-vs-specification directly (metainfo mirrors the held object, read-back equals it) and against the '
+        'model through the equivalent fresh-getter history (callback alive => same state machine; proved in Lean only for '
+        'replace/append/clear on a held Trackers object); two objects of one list edited alternately are not modelled',
         'values are None / str / list of str / list of (str | list of str) / a non-iterable; deeper nesting, '
         'extended slices (step != 1), assigning a list to an integer index of a URL list and reverse()/sort() are not modelled',
         'the metainfo fields only hold what the API itself writes (plus two legacy start states that are '
@@ -769,7 +1117,9 @@ def run(ctx, drv):
     corpus = _load_corpus()
     if corpus:
         evaluate(ctx, drv, corpus)
-    _evaluate_batched(ctx, drv, gen_cases(ctx))
+    cases = gen_cases(ctx)
+    held = [c for c in cases if c['kind'].startswith('held')]
+    _evaluate_batched(ctx, drv, held + [c for c in cases if not c['kind'].startswith('held')])
     ctx.exhaustive = False
 
 
@@ -777,7 +1127,8 @@ def _evaluate_batched(ctx, drv, cases, size=40000):
     # bounded memory: observations of at most `size` histories are alive at a time
     for i in range(0, len(cases), size):
         evaluate(ctx, drv, cases[i:i + size])
-        if len(ctx.violations) >= 50 or len(ctx.corr_breaks) >= 50 or ctx.machinery_errors:
+        # (correspondence breaks alone do not stop the run: a failing input may still follow)
+        if len(ctx.violations) >= 50 or ctx.machinery_errors:
             break
 
 
